@@ -175,6 +175,44 @@ func zzC15_SubPermutation(n, m int) {
 	}
 }
 
+// zzC15_history: the helpers do not depend on what the generator object was used for before (apart from the tape
+// position): after a first call with population n1, a call with population n2 still returns valid results
+func zzC15_history(n1, m1, n2, m2, which int) {
+	p, t := newTapePRG(n1 + n2 + 2)
+	switch which {
+	case 0:
+		_, _ = p.SubPermutation(n1, m1)
+	case 1:
+		_, _ = p.Permutation(n1)
+	default:
+		_ = p.Shuffle(n1, func(i, j int) {})
+	}
+	r0 := t.reads
+	items, err := p.SubPermutation(n2, m2)
+	verifAssert(err == nil, "no error")
+	verifAssert(len(items) == m2, "length m")
+	verifAssume(t.reads-r0 <= n2)
+	seen := make([]bool, n2)
+	for _, v := range items {
+		verifAssert(bAnd(v >= 0, v < n2), "element in range (whatever the generator did before)")
+		if v >= 0 && v < n2 {
+			verifAssert(!seen[v], "elements distinct (whatever the generator did before)")
+			seen[v] = true
+		}
+	}
+	perm, err := p.Permutation(n2)
+	verifAssert(bAnd(err == nil, len(perm) == n2), "Permutation after other calls")
+	seen2 := make([]bool, n2)
+	for _, v := range perm {
+		verifAssert(bAnd(v >= 0, v < n2), "permutation element in range")
+		if v >= 0 && v < n2 {
+			verifAssert(!seen2[v], "permutation elements distinct")
+			seen2[v] = true
+		}
+	}
+	verifReach("history")
+}
+
 // zzC15_Samples: Samples/Shuffle only apply swap(i, i+j) with i the step and i <= i+j < n; the data stays a
 // permutation of the original items, the tape is recovered from the first m positions (injective).
 func zzC15_Samples(n, m int, shuffle bool) {
